@@ -30,6 +30,7 @@ pub fn run(id: &str) -> Result<String, String> {
         "F59" => f59(),
         "F64" => f64_crai(),
         "F69" => f69(),
+        "F75" => f75(),
         _ => Err(format!("unknown witness {id}")),
     }
 }
@@ -816,4 +817,34 @@ fn f69() -> Result<String, String> {
         w.write_header(&header)?; for r in &recs { w.write_alignment_record(&header, r)?; } w.try_finish(&header) }));
     let _ = std::panic::take_hook();
     match r { Err(_) => Err("the CRAM writer PANICS on a mapped record without bases (SEQ *) whose CIGAR has M ops".into()), Ok(_) => Ok("\"cases\":1".into()) }
+}
+
+/// F75: a VCF sample column whose GT holds a multi-byte character must be an error (or skipped), never a panic, through the lazy record's
+/// genotype iterator (next_allele split the string at a CHARACTER index used as a byte index).
+fn f75() -> Result<String, String> {
+    use noodles_vcf as vcf;
+    use vcf::variant::record::samples::series::Value;
+    use vcf::variant::record::samples::Series as _;
+    use vcf::variant::record::Samples as _;
+    let hdr = "##fileformat=VCFv4.3\n##FORMAT=<ID=GT,Number=1,Type=String,Description=\"x\">\n##contig=<ID=sq0,length=1000>\n#CHROM\tPOS\tID\tREF\tALT\tQUAL\tFILTER\tINFO\tFORMAT\ts0\ts1\n";
+    let mut cases = 0;
+    std::panic::set_hook(Box::new(|_| {}));
+    let mut bad = Vec::new();
+    for gt in ["\u{e9}|1", "0|\u{e9}", "\u{e9}", "1/\u{20ac}/0", "|\u{e9}|1", "\u{e9}\u{e9}|\u{e9}", "0\u{e9}|1"] {
+        let text = format!("{hdr}sq0\t10\t.\tA\tC\t.\t.\t.\tGT\t{gt}\t0/1\n");
+        cases += 1;
+        let r = std::panic::catch_unwind(|| -> Result<(), String> {
+            let mut rd = vcf::io::Reader::new(text.as_bytes());
+            let h = rd.read_header().map_err(|e| format!("header: {e}"))?;
+            let mut rec = vcf::Record::default();
+            if rd.read_record(&mut rec).map_err(|e| format!("read_record: {e}"))? == 0 { return Err("no record".into()); }
+            let samples = rec.samples();
+            if let Some(series) = samples.select("GT") { for v in series.iter(&h) { if let Ok(Some(Value::Genotype(g))) = v { let _ = g.iter().map(|a| a.is_ok()).collect::<Vec<_>>(); } } }
+            for s in samples.iter() { for f in s.iter(&h) { if let Ok((_, Some(Value::Genotype(g)))) = f { let _ = g.iter().count(); } } }
+            let _ = vcf::variant::RecordBuf::try_from_variant_record(&h, &rec);
+            Ok(()) });
+        match r { Err(_) => bad.push(format!("{gt:?}")), Ok(Err(e)) => return Err(e), Ok(Ok(())) => {} }
+    }
+    let _ = std::panic::take_hook();
+    if bad.is_empty() { Ok(format!("\"cases\":{cases}")) } else { Err(format!("the lazy VCF record's genotype iterator PANICS on GT values with a multi-byte character: {}", bad.join(", "))) }
 }
